@@ -165,14 +165,14 @@ func (i Int8) BitwiseXor(other Value) (Int8, Value) {
 
 func (i Int8) LeftBitshiftInt8(other Int8) Int8 {
 	if other < 0 {
-		return i >> -other
+		return i >> uint64(-other)
 	}
 	return i << other
 }
 
 func (i Int8) RightBitshiftInt8(other Int8) Int8 {
 	if other < 0 {
-		return i << -other
+		return i << uint64(-other)
 	}
 	return i >> other
 }
